@@ -82,8 +82,8 @@ fn prefix(s: Start) -> Vec<Ev> {
     p
 }
 
-fn build_signature(w: &World, epoch: u64, msg: &mithril_common::entities::ProtocolMessage, s: &Sub) -> Option<SingleSignature> {
-    let mut sig = if s.idx == Idx::NextEpochRegistration { w.sign(s.by, epoch + 1, msg)? } else { w.sign(s.by, epoch, msg)? };
+async fn build_signature(w: &World, epoch: u64, msg: &mithril_common::entities::ProtocolMessage, s: &Sub) -> Option<SingleSignature> {
+    let mut sig = if s.idx == Idx::NextEpochRegistration { w.sign(s.by, epoch + 1, msg).await? } else { w.sign(s.by, epoch, msg).await? };
     let m = protocol_parameters().m;
     match s.idx {
         Idx::AsSigned | Idx::NextEpochRegistration => {}
@@ -193,6 +193,13 @@ async fn check_rows(
 }
 
 pub fn replay(scratch: &std::path::Path, start: Start, subs: &[Sub]) -> RunResult {
+    match mc_core::catch(|| replay_inner(scratch, start, subs)) {
+        Ok(r) => r,
+        Err(e) => crate::sys::panic_result(e),
+    }
+}
+
+fn replay_inner(scratch: &std::path::Path, start: Start, subs: &[Sub]) -> RunResult {
     let dir = fresh_dir(scratch);
     let rt = tokio::runtime::Builder::new_current_thread().enable_all().build().expect("tokio runtime");
     let replay_json = json!({"start": start, "submissions": subs});
@@ -214,7 +221,7 @@ pub fn replay(scratch: &std::path::Path, start: Start, subs: &[Sub]) -> RunResul
         let mut honest_accepted: BTreeSet<usize> = BTreeSet::new();
         let mut answers = vec![];
         for (n, s) in subs.iter().enumerate() {
-            let Some(sig) = build_signature(&w, epoch, &pm, s) else {
+            let Some(sig) = build_signature(&w, epoch, &pm, s).await else {
                 answers.push("unbuildable".to_string());
                 continue;
             };
